@@ -93,6 +93,12 @@ func allDigits(s string) bool {
 }
 
 func buildScript(fr *FuncResult, upto int, goal string, pre string) string {
+	return buildScriptX(fr, upto, goal, pre, false)
+}
+
+// buildScriptX: with assumptionsOnly the earlier obligations are left out (used by the vacuity check: a failing
+// obligation asserted as a hypothesis would make the context contradictory for a reason that is not vacuity).
+func buildScriptX(fr *FuncResult, upto int, goal string, pre string, assumptionsOnly bool) string {
 	var b strings.Builder
 	b.WriteString(pre)
 	b.WriteString("(set-logic ALL)\n")
@@ -105,6 +111,9 @@ func buildScript(fr *FuncResult, upto int, goal string, pre string) string {
 		grp = oblGroup(fr.Facts[upto].Name)
 	}
 	for j := 0; j < upto; j++ {
+		if assumptionsOnly && fr.Facts[j].Oblig {
+			continue
+		}
 		if f := fr.Facts[j]; f.Oblig && grp != "" && oblGroup(f.Name) != grp && (strings.Contains(f.Term, "(forall ") || strings.Contains(f.Term, "(exists ")) {
 			// an earlier quantified obligation of another group: proved separately, not needed as a hypothesis here
 			continue
@@ -170,7 +179,7 @@ func solveObligation(fr *FuncResult, idx int, opts SolveOpts, id int) OblResult 
 		if !opts.Keep {
 			os.Remove(file)
 			for i := range solvers {
-				os.Remove(fmt.Sprintf("%s.%d", file, i))
+				os.Remove(strings.TrimSuffix(file, ".smt2")+fmt.Sprintf("_%d.smt2", i))
 			}
 		}
 	}()
@@ -182,7 +191,7 @@ func solveObligation(fr *FuncResult, idx int, opts SolveOpts, id int) OblResult 
 			wg.Add(1)
 			go func(i int, sd solverDef) {
 				defer wg.Done()
-				st, out, el := runSolver(sd, script, fmt.Sprintf("%s.%d", file, i), opts.Timeout, opts.Seed)
+				st, out, el := runSolver(sd, script, strings.TrimSuffix(file, ".smt2")+fmt.Sprintf("_%d.smt2", i), opts.Timeout, opts.Seed)
 				mu.Lock()
 				defer mu.Unlock()
 				res.Agree[sd.name] = st
@@ -232,13 +241,13 @@ func solveObligation(fr *FuncResult, idx int, opts SolveOpts, id int) OblResult 
 	ch := make(chan r, len(atts))
 	for k, a := range atts {
 		go func(k int, a att) {
-			s, o, e := runSolverCtx(ctx, solvers[a.sd], script, fmt.Sprintf("%s.%d", file, k), opts.Timeout, a.seed)
+			s, o, e := runSolverCtx(ctx, solvers[a.sd], script, strings.TrimSuffix(file, ".smt2")+fmt.Sprintf("_%d.smt2", k), opts.Timeout, a.seed)
 			ch <- r{s, o, solvers[a.sd].name, e}
 		}(k, a)
 	}
 	defer func() {
 		for k := range atts {
-			os.Remove(fmt.Sprintf("%s.%d", file, k))
+			os.Remove(strings.TrimSuffix(file, ".smt2")+fmt.Sprintf("_%d.smt2", k))
 		}
 	}()
 	for k := 0; k < len(atts); k++ {
@@ -275,7 +284,7 @@ func coverCheck(fr *FuncResult, opts SolveOpts, id int) (string, float64) {
 		return "none", 0
 	}
 	// E-matching only: a contradiction among the assumptions shows up as unsat quickly, anything else is fine
-	script := buildScript(fr, fr.CoverIdx, fr.Cover, "(set-option :smt.auto_config false)\n(set-option :smt.mbqi false)\n")
+	script := buildScriptX(fr, fr.CoverIdx, fr.Cover, "(set-option :smt.auto_config false)\n(set-option :smt.mbqi false)\n", true)
 	file := filepath.Join(opts.WorkDir, fmt.Sprintf("cover%d_%d.smt2", os.Getpid(), id))
 	defer os.Remove(file)
 	st, _, el := runSolver(solvers[0], script, file, 3*time.Second, opts.Seed)
